@@ -617,13 +617,15 @@ class Union(Structure, metaclass=UnionMetaType):
             for field in value.__class__.__fields__:
                 if issubclass(field.type, Structure):
                     nested_value = getattr(value, field._name)
-                    if isinstance(nested_value, UnionProxy):
-                        # Already proxied by a nested union, proxy the structure itself for this union
-                        nested_value = nested_value.__target__
+                    nested_target = nested_value
+                    if isinstance(nested_target, UnionProxy):
+                        # Already proxied by a nested union, keep that proxy in the chain so the nested union is
+                        # rebuilt before this one
+                        nested_target = nested_target.__target__
                     # Deeper levels must rebuild the union from the top level member they live in
                     proxy = UnionProxy(self, attr or field._name, nested_value)
                     object.__setattr__(value, field._name, proxy)
-                    _proxy_structure(nested_value, attr or field._name)
+                    _proxy_structure(nested_target, attr or field._name)
 
         _proxy_structure(self)
 
